@@ -62,7 +62,7 @@ PROP = {
         "SlashExecutionInfo; it belongs to C04/C05",
         "entry points run in a cache context committed on success only (message-server mode); precompile partial-write mode belongs to C09",
         "not modelled: NST deposits, staker-operator association (stakers in the generated histories have no associated operator), "
-        "operator lifecycle beyond {plain, active validator}; UpdateNSTBalance is modelled and correspondence-checked but outside the theorems (wf_op)",
+        "operator lifecycle beyond {plain, active validator}; UpdateNSTBalance is inside the theorem fragment",
     ],
     "assumptions": [
         "identifiers (staker ids, asset ids, operator addresses, tx hashes) contain no '/' (fixed-format hex / bech32 strings)",
